@@ -44,12 +44,50 @@ def proj_value(pv):
     return out
 
 
+FUNCTION_LIKE = ('FUNCTION', 'COLOR_VALUE', 'CALC', 'VARIABLE')
+
+
+def inner_comment(pv):
+    """does a function of the value hold a comment (region of known finding C02-comment-in-function-validity)"""
+    from cssutils.tokenize2 import Tokenizer
+    for item in pv:
+        if item.type in FUNCTION_LIKE:
+            try:
+                if any(t[0] == 'COMMENT' for t in Tokenizer().tokenize(item.cssText)):
+                    return True
+            except Exception:       # noqa
+                return True
+    return False
+
+
+def mask_valid(p, everywhere=True):
+    """projection without the `valid` flags"""
+    if isinstance(p, list):
+        return [mask_valid(x) for x in p]
+    if isinstance(p, tuple):
+        if len(p) == 3 and p[0] == 'valid':
+            return ('valid', None, None)
+        return tuple(mask_valid(x) for x in p)
+    return p
+
+
+def same(a, b, region=False):
+    """equality of projections; the marker of a comment inside a function is not part of the DOM.
+    region=True: `valid` may differ where one side has a comment inside a function (C02-comment-in-function-validity)"""
+    if isinstance(a, tuple) and isinstance(b, tuple) and len(a) == 3 == len(b) and a[0] == 'valid' == b[0]:
+        return a[1] == b[1] or (region and bool(a[2] or b[2]))
+    if isinstance(a, (list, tuple)) and isinstance(b, (list, tuple)):
+        return type(a) is type(b) and len(a) == len(b) and all(same(x, y, region) for x, y in zip(a, b))
+    return a == b
+
+
 def proj_decls(style, with_comments=True):
     import cssutils
     out = []
     for item in style.children():
         if isinstance(item, cssutils.css.Property):
-            out.append(('decl', item.name, proj_value(item.propertyValue), item.priority))
+            out.append(('decl', item.name, proj_value(item.propertyValue), item.priority,
+                        ('valid', bool(item.valid), inner_comment(item.propertyValue))))
         elif isinstance(item, cssutils.css.CSSComment):
             if with_comments:
                 out.append(('comment', item.cssText))
@@ -439,9 +477,16 @@ class C02(Check):
                 seeds.append(s)
                 lvl = LEVELS[j % 6]
                 texts.append((G.render(ast, G.Spelling(random.Random(s), lvl)), True, True))
+            kinds = ['spelling-l%d' % LEVELS[j % 6] for j in range(nsp)]
+            twins = [None] * len(texts)
             texts.append((canon, False, True))      # comments off
+            kinds.append('comments-off'); twins.append(0)
             texts.append((canon, True, False))      # validation off
-            cases.append({'ast': ast, 'texts': texts, 'seeds': seeds})
+            kinds.append('validate-off'); twins.append(0)
+            for j in (1, 2):                        # spellings (comments at every gap, also inside values) without comments
+                texts.append((texts[j][0], False, True))
+                kinds.append('comments-off-l%d' % LEVELS[(j - 1) % 6]); twins.append(j)
+            cases.append({'ast': ast, 'texts': texts, 'seeds': seeds, 'kinds': kinds, 'twins': twins})
         res = run_cases(work, cases, timeout=60.0)
         for case, r in res:
             ast = case['ast']
@@ -468,7 +513,7 @@ class C02(Check):
                             {'dom_summary': first_diff(got, want)})
             # (1) every spelling gives the same DOM
             for (text, comments, validate), o, j in zip(case['texts'][1:], outs[1:], range(len(outs) - 1)):
-                kind = 'spelling-l%d' % (LEVELS[j % 6]) if j < len(case['seeds']) else ('comments-off' if not comments else 'validate-off')
+                kind = case['kinds'][j]
                 ctx.case(key=(kind, text, comments, validate), nontrivial=(text != canon_text or not comments or not validate), kind=kind,
                          sample={'spelling': text[:300]} if j < 2 else None)
                 if o[0] != 'ok':
@@ -476,10 +521,18 @@ class C02(Check):
                                 {'exception': o[1]})
                     continue
                 a, b = strip_comments(base[1]), strip_comments(o[1])
-                if a != b and unescape_names(a) == unescape_names(b):
+                if not validate:
+                    # `valid` is the annotation validation makes: not part of what "disabling validation" may not change
+                    a, b = mask_valid(a), mask_valid(b)
+                if same(a, b):
+                    pass
+                elif same(unescape_names(a), unescape_names(b)):
                     ctx.violate('same DOM under CSS escapes of ordinary name characters', {'text': text, 'canonical': canon_text},
                                 {'first_difference': first_diff(b, a)}, known='C02-simple-escapes-kept')
-                elif a != b:
+                elif same(unescape_names(a), unescape_names(b), region=True):
+                    ctx.violate('same validity for every way of writing a value', {'text': text, 'canonical': canon_text},
+                                {'first_difference': first_diff(b, a)}, known='C02-comment-in-function-validity')
+                else:
                     clause = ('the result is the same for every way of writing the sheet (white space, comments, case of '
                               'case-insensitive parts, quote style, escapes of name characters)')
                     if not validate:
@@ -488,9 +541,18 @@ class C02(Check):
                         clause = 'disabling comment parsing removes exactly the comments'
                     ctx.violate(clause, {'text': text, 'canonical': canon_text, 'comments': comments, 'validate': validate},
                                 {'first_difference': first_diff(b, a)})
-                if not comments and o[1] != strip_comments(base[1]):
-                    ctx.violate('disabling comment parsing removes exactly the comments', {'text': text},
-                                {'first_difference': first_diff(o[1], strip_comments(base[1]))})
+                twin = case['twins'][j + 1]
+                if not comments and twin is not None and outs[twin][0] == 'ok':
+                    # the same text with comment parsing on: exactly its comments must be gone
+                    want_off = strip_comments(outs[twin][1])
+                    if same(o[1], want_off):
+                        pass
+                    elif not same(o[1], want_off, region=True):
+                        ctx.violate('disabling comment parsing removes exactly the comments', {'text': text},
+                                    {'first_difference': first_diff(o[1], want_off)})
+                    else:
+                        ctx.violate('same validity with and without comment parsing', {'text': text},
+                                    {'first_difference': first_diff(o[1], want_off)}, known='C02-comment-in-function-validity')
 
     def known(self, ctx, finding):
         w = finding['witness']['data']
@@ -501,8 +563,8 @@ class C02(Check):
             margin, plain = a[0][1][0], a[1][1][0]
             # the declaration survives in the page block itself but not in the margin box
             return len(plain[2]) == 1 and margin[3] and len(margin[3][0][1]) == 0
-        a = work({'texts': [(w['canonical'], True, True), (w['text'], True, True)]})
-        return a[0][0] == 'ok' and a[1][0] == 'ok' and a[0][1] != a[1][1]
+        a = work({'texts': [(w['canonical'], True, True), (w['text'], w.get('comments', True), True)]})
+        return a[0][0] == 'ok' and a[1][0] == 'ok' and not same(strip_comments(a[0][1]), strip_comments(a[1][1]))
 
     def replay(self, ctx, data):
         import cssutils
@@ -510,7 +572,7 @@ class C02(Check):
         w = data.get('witness') or {}
         if 'canonical' in w:
             a = work({'texts': [(w['canonical'], True, True), (w['text'], w.get('comments', True), w.get('validate', True))]})
-            if a[0][0] != 'ok' or a[1][0] != 'ok' or strip_comments(a[0][1]) != strip_comments(a[1][1]):
+            if a[0][0] != 'ok' or a[1][0] != 'ok' or not same(strip_comments(a[0][1]), strip_comments(a[1][1])):
                 ctx.violate(data.get('clause'), w, {'projections': a})
         else:
             self.run(ctx)
